@@ -2,6 +2,7 @@
 """save_seeded.py <PID> <m>: copy a confirmed mutant from /tmp/wt/<PID>/out/<m> to /verif/seeded/<PID>-<m>/ with meta.json."""
 import sys, os, json, shutil, re
 pid, m = sys.argv[1], sys.argv[2]
+extra = sys.argv[3] if len(sys.argv) > 3 else '--tier quick'
 src = '/tmp/wt/%s/out/%s' % (pid, m)
 dst = '/verif/seeded/%s-%s' % (pid, m)
 os.makedirs(dst, exist_ok=True)
@@ -27,7 +28,7 @@ lg = '/tmp/mutant-%s-%s.log' % (m, pid)
 if os.path.exists(lg):
     t = open(lg, errors='replace').read()
     viol = re.findall(r'^VIOLATION property=(\S+) replay=\S+\n  harness (\S+): (.*)$', t, re.M)
-    meta['check_run'] = {'cmd': 'vlib/try_mutant.sh %s /tmp/wt/%s %s/patch.diff --tier quick' % (pid, pid, src),
+    meta['check_run'] = {'cmd': 'vlib/try_mutant.sh %s /tmp/wt/%s %s/patch.diff %s' % (pid, pid, src, extra),
                          'detected': bool(viol), 'violations': [{'harness': v[1], 'failed_check': v[2][:300]} for v in viol][:6],
                          'inconclusive': re.findall(r'^INCONCLUSIVE: (.*)$', t, re.M)[:4]}
 json.dump(meta, open(meta_p, 'w'), indent=1)
